@@ -6,7 +6,7 @@ cfg = json.load(open(os.path.join(V, "harness/checks.json")))
 for p in sorted(glob.glob(os.path.join(V, "harness/checks.d/*.json"))):
     cfg.update(json.load(open(p)))
 
-HOOK_COMMITS = ["696fb8d", "b18b87d", "17e7999", "f46fb1d", "0343457"]
+HOOK_COMMITS = ["696fb8d", "b18b87d", "17e7999", "f46fb1d", "0343457", "e174a02"]
 
 T = {
  "C01": ("vexec", "runtime monitoring: full read-out before Close vs after Open + reference-model oracle over generated histories",
